@@ -1,21 +1,32 @@
 (* C02 — the HOG hierarchy is a forest aligned level-by-level with the species tree. *)
 From Coq Require Import List Arith Bool String Permutation.
-From PyHam Require Import Tax Ortho Loader Mapper Preds Hist.
-From PyHam.proofs Require Import LoaderFacts ExplicitFacts.
+From PyHam Require Import Tax Ortho Loader Mapper Preds Hist Spell.
+From PyHam.proofs Require Import LoaderFacts ExplicitFacts SpellFacts.
 Import ListNotations.
 
-(* PARTIAL (see DESIGN.md, C02): the alignment theorem is proved for the fully explicit encodings
-   (Hist.enc: every HOG an orthologGroup, every duplication one paralogGroup, nothing omitted) of all
-   well-formed histories (Hist.WFh) over all trees - any arity, any depth, any number of families and
-   duplications, no bound.  For encodings with omitted levels, species-level wrapper groups, nested
-   paralogGroups and TaxRange labels the same statement is checked on the implementation (extracted
-   wfb on the dumped forest) and tied to the model by the parser-layer correspondence only.
+(* The alignment theorem, for every consistent input: every species tree, every well-formed history
+   (Hist.WFh: any arity, depth, number of families and duplications - no bound) and every permitted
+   spelling of it (Spell.spells_top: single-lineage levels left out in any combination, a HOG that consists
+   of one duplication spelt as that duplication's paralogGroup nest, copies several levels below their
+   group, paralogGroups nested in any bracketing, species-level wrapper groups, any ids, annotations
+   anywhere, TaxRange labels), in every order of members (histories are ordered lists and every order is
+   quantified over).  Not covered by the relation: LOFT attributes on geneRefs.
+   Statement: the document loads, every top-level HOG represents its history (matches) and satisfies
+   wf_node: every HOG has a child; each child lives at a direct child taxon of its parent's taxon; genes at
+   leaves, HOGs at internal nodes; two children at one taxon are copies of one duplication; every
+   duplication groups at least two children of the HOG it is attached to, all at one taxon; a child is
+   flagged exactly when it belongs to such an event. *)
+Theorem c02_aligned : forall t d hs,
+  Forall (species_sane t) (d_species d) -> NoDup (declared d) -> Forall2 (spells_top t) hs (d_groups d) ->
+  (forall genes, map fst genes = declared d ->
+     (forall g p, In (g, p) genes -> exists sp, In sp (d_species d) /\ In g (map gd_id (sp_genes sp)) /\ species_resolves t sp p) ->
+     Forall (WFh t genes) hs) ->
+  exists l, load t d = Ok l /\
+    Forall2 (fun h top => matches h (snd top) /\ htax (snd top) = xtax h /\ wf_node t (snd top) = true) hs (l_tops l).
+Proof. exact spelt_load. Qed.
+Print Assumptions c02_aligned.
 
-   Statement: the document loads, and every top-level HOG satisfies wf_node: every HOG has a child;
-   each child lives at a direct child taxon of its parent's taxon; genes at leaves, HOGs at internal
-   nodes; two children at one taxon are copies of one duplication; every duplication groups at least
-   two children of the HOG it is attached to, all at one taxon; a child is flagged exactly when it
-   belongs to such an event. *)
+(* the fully explicit encoding is one of the spellings, so this is an instance: *)
 Theorem c02_aligned_explicit : forall t d hs,
   Forall (species_sane t) (d_species d) -> NoDup (declared d) -> d_groups d = map enc hs ->
   (forall genes, map fst genes = declared d ->
